@@ -44,6 +44,8 @@ inductive ACall
   | updatePolicies (sec : Sec) (olds news : List Rule)
   | savePolicy
   | loadPolicy
+  /-- `adapter.update_filtered_policies("p", "p", new_rules, idx, *vals)` -/
+  | updateFiltered (news : List Rule) (idx : Nat) (vals : List String)
   deriving DecidableEq, Repr
 
 /-- notifications received by the watcher -/
@@ -147,6 +149,8 @@ def applyACall (st : Pol) (cur : Pol) : ACall → Pol
       st.set sec ((st.get sec).map fun x => match (olds.zip news).find? (·.1 == x) with | some (_, n) => n | none => x)
   | .savePolicy => cur
   | .loadPolicy => st
+  | .updateFiltered news idx vals =>
+      st.set .p (news.foldl (fun acc r => (Spec.add acc r).1) ((st.get .p).filter fun r => !Spec.matchesFilter idx vals r))
 
 /-- the common tail of the `_xxx_policy` methods of `internal_enforcer.py`:
     `if adapter and auto_save: adapter.call(...); if watcher and auto_notify_watcher: notify` -/
@@ -290,6 +294,45 @@ def step (cfg : Cfg) (s : St) : Op → St × Except EErr Ret
   | .enableAutoNotify b => ({ s with autoNotify := b }, .ok .unit)
 
 def run (cfg : Cfg) (s : St) (ops : List Op) : St := ops.foldl (fun s op => (step cfg s op).1) s
+
+/-! ## `update_filtered_policies` (kept apart from `Op`: the adapter is asked *before* memory is looked at, so the
+    invariants proved for `step` do not all hold for it - see Props/C06f, C09f) -/
+
+/-- `InternalEnforcer._update_filtered_policies("p", "p", news, idx, *vals)` (repaired, F16: the call is refused
+    before anything is touched when nothing is selected, there are no new rules, or a new rule is already held outside
+    the selection).  The old rules are the in-memory selection, replaced by what the adapter reports when auto-save is on (the faithful
+    adapter filters its own store, replaces the selection by the new rules and returns the selection; when it raises,
+    `except: pass` keeps the in-memory selection).  Then `remove_policies(old)`, `add_policies(new)` with the result
+    ignored, `removed and len(new) != 0` decides about the (always generic) notification and is returned. -/
+def updateFilteredStep (cfg : Cfg) (s : St) (news : List Rule) (idx : Nat) (vals : List String) :
+    St × Except EErr Ret :=
+  match Policy.getFiltered s.pol.p idx vals with
+  | .error e => (s, .error (ofPErr e))
+  | .ok oldMem =>
+    if Policy.updateFilteredRefused s.pol.p oldMem news then (s, .ok (.bool false)) else
+    let (s1, old) :=
+      if cfg.hasAdapter && s.autoSave then
+        match Policy.getFiltered s.store.p idx vals with
+        | .ok oldSt =>
+          let c := ACall.updateFiltered news idx vals
+          ({ s with alog := s.alog ++ [c], store := applyACall s.store s.pol c }, oldSt)
+        | .error _ => ({ s with alog := s.alog ++ [ACall.updateFiltered news idx vals] }, oldMem)
+      else (s, oldMem)
+    let (l2, changed) := Policy.updateFilteredWith s1.pol.p old news
+    let s2 := { s1 with pol := s1.pol.set .p l2 }
+    if !changed then (s2, .ok (.bool false))
+    else if cfg.hasWatcher && s2.autoNotify then ({ s2 with wlog := s2.wlog ++ [.update] }, .ok (.bool true))
+    else (s2, .ok (.bool true))
+
+/-- management calls including the filtered update -/
+inductive OpX
+  | base (op : Op)
+  | updateFiltered (news : List Rule) (idx : Nat) (vals : List String)
+  deriving Repr
+
+def stepX (cfg : Cfg) (s : St) : OpX → St × Except EErr Ret
+  | .base op => step cfg s op
+  | .updateFiltered news idx vals => updateFilteredStep cfg s news idx vals
 
 /-! ## queries -/
 
